@@ -993,8 +993,52 @@ class Executor:
             if isinstance(idx, tuple) and len(idx) == 2:
                 i = self.norm_index(idx[0], h.nr, node)
                 j = self.norm_index(idx[1], h.nc, node)
-                return CVal(z3.Select(h.re, i, j), z3.Select(h.im, i, j))
+                return self.mat_select(h, i, j)
         raise Unsupported(f"subscript of {h!r}")
+
+    def mat_select(self, h, i, j):
+        """entry (i,j) as a scalar term.  For matrices built from identity/zeros by entry stores the store chain is walked,
+        each index comparison being decided under the current path condition when it is forced (linear integer query), so
+        that the resulting term needs no array reasoning."""
+        if h.base is None:
+            return CVal(z3.Select(h.re, i, j), z3.Select(h.im, i, j))
+        if h.base == "identity":
+            d = z3.simplify(i == j)
+            re = z3.RealVal(1) if z3.is_true(d) else (z3.RealVal(0) if z3.is_false(d) else None)
+            if re is None:
+                f = self._forced(i == j)
+                re = z3.RealVal(1) if f is True else (z3.RealVal(0) if f is False else z3.If(i == j, z3.RealVal(1), z3.RealVal(0)))
+            out = CVal(re, z3.RealVal(0))
+        else:
+            out = CVal(z3.RealVal(0), z3.RealVal(0))
+        for (si, sj, v) in h.chain:
+            cond = z3.simplify(z3.And(i == si, j == sj))
+            f = True if z3.is_true(cond) else (False if z3.is_false(cond) else self._forced(cond))
+            if f is True:
+                out = v
+            elif f is False:
+                continue
+            else:
+                out = CVal(z3.If(cond, v.re, out.re), z3.If(cond, v.im, out.im))
+        return out
+
+    def _forced(self, cond):
+        """True / False if the (quantifier-free integer) condition is decided by the path condition, else None"""
+        if any(z3.is_quantifier(x) for x in [cond]):
+            return None
+        s = z3.Solver()
+        s.set("timeout", 500)
+        s.add(*[p for p in self.pc if not _has_quantifier(p)])
+        s.push()
+        s.add(z3.Not(cond))
+        r1 = s.check()
+        s.pop()
+        if r1 == z3.unsat:
+            return True
+        s.add(cond)
+        if s.check() == z3.unsat:
+            return False
+        return None
 
     def slice(self, base, sl, env, node):
         h = self.deref(base)
@@ -1266,6 +1310,15 @@ class Executor:
             return bi.container_method(self, base, h, attr, args, kwargs, node)
         if isinstance(base, str):
             raise Unsupported("string method")
+        if isinstance(base, Opaque) and base.tag == "rng":
+            # numpy Generator: assumed contracts (A4) - random() in [0,1), normal() any real; every call consumes the oracle
+            self.assumptions.add("A4.rng: Generator.random() returns a real in [0,1), Generator.normal() a real (oracle; distributions not modelled)")
+            v = fresh("rng_" + attr, R)
+            if attr == "random":
+                self.fact(v >= 0, v < 1)
+                return v
+            if attr == "normal":
+                return v
         raise Unsupported(f"method {attr} on {base!r}")
 
     def construct(self, cls, args, kwargs, node):
@@ -1578,7 +1631,8 @@ class Executor:
                 i = self.norm_index(idx[0], h.nr, node)
                 j = self.norm_index(idx[1], h.nc, node)
                 c = to_c(val)
-                self.store(base, Mat(h.nr, h.nc, z3.Store(h.re, i, j, c.re), z3.Store(h.im, i, j, c.im)), node, "[i,j] =")
+                self.store(base, Mat(h.nr, h.nc, z3.Store(h.re, i, j, c.re), z3.Store(h.im, i, j, c.im), h.base,
+                                     (h.chain + ((i, j, c),)) if h.base is not None else ()), node, "[i,j] =")
                 return
         if isinstance(h, Obj):
             self.call_method(base, "__setitem__", [idx, val], {}, node)
@@ -1902,6 +1956,20 @@ class _SpecView:
         if k in ("defs",):
             return getattr(self._callee, k)
         return getattr(self._caller, k)
+
+
+def _has_quantifier(e):
+    seen = set()
+    stack = [e]
+    while stack:
+        x = stack.pop()
+        if x.get_id() in seen:
+            continue
+        seen.add(x.get_id())
+        if z3.is_quantifier(x):
+            return True
+        stack.extend(x.children())
+    return False
 
 
 _ids = [0]
